@@ -252,7 +252,62 @@ def pBool : Parser Bool := do
   let e ← Tok.ext
   pure (e != Ext.fin 0)
 
+/-! ### certified enclosure of the least fixed point (Real semiring, C02)
+
+`lo = kleeneDown n`: Kleene iteration with every cell rounded DOWN to `bits` fractional bits after
+each step; by monotonicity of F (non-negative weights) `kleeneDown n ≤ kleene n ≤ lfp`.
+`hi`: any value with `F hi ≤ hi` (checked exactly) is an upper bound of the least fixed point. -/
+
+def truncDown (bits : Nat) : Ext → Ext
+  | .fin a => .fin (((a * (2 ^ bits : Nat)).floor : Int) / ((2 ^ bits : Nat) : Rat))
+  | x => x
+
+def kleeneDown (G : Grammar Ext) (bits : Nat) : Nat → Val Ext
+  | 0 => zeroVal G
+  | n+1 => (F realSR G (kleeneDown G bits n)).map (fun t => t.map (fun l => l.map (truncDown bits)))
+
+/-- cellwise `a ≤ b` (absent = zero) -/
+def valLe (G : Grammar Ext) (a b : Val Ext) : Bool :=
+  (List.range G.nts.length).all (fun X =>
+    let n := numel (G.shapeOf (G.nts[X]?.getD []))
+    let get (v : Val Ext) (i : Nat) : Ext := match v[X]?.join with | some t => t[i]?.getD (Ext.fin 0) | none => Ext.fin 0
+    (List.range n).all (fun i => (get a i).le (get b i)))
+
+def parseVal : Parser (Val Ext) := Tok.list (Tok.optional (Tok.list Tok.ext))
+
+/-! ### derivatives by dual numbers (C03): evaluate the equation system over K[ε]/(ε²) with weight
+entry (terminal `wi`, cell `ci`) perturbed by ε; the ε-part of the result is ∂/∂w. -/
+
+def toDual (G : Grammar Ext) (wi ci : Nat) : Grammar (Ext × Ext) :=
+  { nls := G.nls, terms := G.terms, nts := G.nts, start := G.start, rules := G.rules,
+    weights := G.weights.zipIdx.map (fun (w, i) => w.zipIdx.map (fun (c, j) =>
+      (c, if i == wi && j == ci then Ext.fin 1 else Ext.fin 0))) }
+
+/-- Kleene iteration over dual numbers, both parts rounded down to `bits` fractional bits when `bits > 0` -/
+def kleeneDual (G : Grammar (Ext × Ext)) (bits : Nat) : Nat → Val (Ext × Ext)
+  | 0 => zeroVal G
+  | n+1 =>
+    let y := F dualSR G (kleeneDual G bits n)
+    if bits == 0 then y else y.map (fun t => t.map (fun l => l.map (fun c => (truncDown bits c.1, truncDown bits c.2))))
+
 def handle : List String → Option (Except String String)
+  | "C03.dual" :: rest => some do
+      let (G, entries, n, bits) ← Tok.run (do
+        let g ← parseGrammar Tok.ext
+        let es ← Tok.list (do let a ← Tok.nat; let b ← Tok.nat; pure (a, b))
+        let n ← Tok.nat; let b ← Tok.nat; pure (g, es, n, b)) rest
+      -- for every requested entry: the start tensor's value and ε-part
+      let outs := entries.map (fun (wi, ci) =>
+        let v := kleeneDual (toDual G wi ci) bits n
+        match v[G.start]?.join with
+        | some t => showList (fun (c : Ext × Ext) => s!"{c.1} {c.2}") t
+        | none => "0")
+      pure (String.intercalate " " outs)
+  | "C02.enclose" :: rest => some do
+      let (G, hi, n, bits) ← Tok.run (do
+        let g ← parseGrammar Tok.ext; let hi ← parseVal; let n ← Tok.nat; let b ← Tok.nat; pure (g, hi, n, b)) rest
+      let lo := kleeneDown G bits n
+      pure s!"{showBool (valLe G (F realSR G hi) hi)} {showBool (valLe G lo hi)} {showVal toString lo}"
   | "C01.real" :: rest => some do
       let (G, order, n) ← Tok.run (do let g ← parseGrammar Tok.ext; let o ← parseOrder; let n ← Tok.nat; pure (g, o, n)) rest
       let impl := Impl.sumProductsNonrec realSR G order
